@@ -103,16 +103,18 @@ class Transformer(NamedTuple):
             raise ImportError('astroid is required for generating stubs')
         self.mutations.clear()
         tree = astroid.parse(self.content, path=self.path)
-        for func in Func.from_astroid(tree):
+        funcs = Func.from_astroid(tree)
+        for func in funcs:
             self._collect_mutations(func)
         self.mutations.extend(self._mutations_pure())
+        for func in funcs:
+            self.mutations.extend(self._mutations_property(func))
         self.mutations.extend(self._mutations_import(tree))
         return self._apply_mutations(self.content)
 
     def _collect_mutations(self, func: Func) -> None:
         self.mutations.extend(self._mutations_excs(func))
         self.mutations.extend(self._mutations_markers(func))
-        self.mutations.extend(self._mutations_property(func))
 
     def _mutations_excs(self, func: Func) -> Iterator[Mutation]:
         """Add @deal.raises or @deal.safe if needed.
